@@ -101,6 +101,7 @@ func (h *Handle) Seek(off int64, whence int) (int64, string) {
 
 func (h *Handle) writeAt(p []byte, off int64) {
 	n := h.node()
+	n.Timed = false // a write sets mtime to "now": unknown to the reference
 	if int64(len(n.Content)) < off+int64(len(p)) {
 		grown := make([]byte, off+int64(len(p)))
 		copy(grown, n.Content)
@@ -158,6 +159,7 @@ func (h *Handle) Truncate(size int64) string {
 		return Invalid
 	}
 	n := h.node()
+	n.Timed = false
 	if size <= int64(len(n.Content)) {
 		n.Content = n.Content[:size]
 	} else {
